@@ -993,7 +993,9 @@ impl Monitors {
                         let at_max = m.incarnation().max(a) == u16::MAX;
                         // an instance that knows its identity is down has nothing to refute any more
                         let defunct_now = post.undead();
-                        let _ = at_max;
+                        if at_max {
+                            stats.inc("c10_probe_suspicion_at_max_incarnation_not_reset");
+                        }
                         if !(b > m.incarnation() || defunct_now) {
                             v(out, "C10", "C10/suspicion-not-refuted", at, format!("suspected at {} (own {a}) but own incarnation is {b} afterwards", m.incarnation()));
                         }
@@ -1010,7 +1012,9 @@ impl Monitors {
                         if *m.id() == pre.id && m.state() == State::Suspect && m.incarnation() >= a {
                             stats.inc("self_suspicions_processed");
                             let at_max = m.incarnation().max(a) == u16::MAX;
-                            let _ = at_max;
+                            if at_max {
+                                stats.inc("c10_probe_suspicion_at_max_incarnation_not_reset");
+                            }
                             if !(b > m.incarnation() || post.undead()) {
                                 v(out, "C10", "C10/suspicion-not-refuted", at, format!("suspected at {} (own {a}) by {} but own incarnation is {b} afterwards", m.incarnation(), p.header.src));
                             }
